@@ -30,6 +30,22 @@ def _observe(net, diameter_first):
     return o
 
 
+def _observe_complex(net):
+    """Effective impedances of a network with complex impedances (real and imaginary parts)."""
+    o = {"exc": ""}
+    try:
+        n = net.N
+        er = np.array([[complex(net.effective_resistance(a, b)) for b in range(n)] for a in range(n)])
+        o["er_re"], o["er_im"] = enc.arr(er.real), enc.arr(er.imag)
+        aer = complex(net.average_effective_resistance())
+        o["aer_re"], o["aer_im"] = enc.num(aer.real), enc.num(aer.imag)
+        cc = np.array([complex(net.effective_resistance_closeness_centrality(a)) for a in range(n)])
+        o["ercc_re"], o["ercc_im"] = enc.arr(cc.real), enc.arr(cc.imag)
+    except Exception as ex:
+        o["exc"] = type(ex).__name__
+    return o
+
+
 def run_case(c):
     from pyunicorn.core import ResNetwork
     rec = dict(c)
@@ -61,6 +77,28 @@ def run_case(c):
             obs = {"exc": "mutator:" + type(ex).__name__}
             twin = {"exc": ""}
         events.append({"op": "observe", "key": key, "obs": obs, "twin": twin})
+    # all resistances of the second assignment multiplied by 2^24 (megaohm range): the current-flow
+    # betweenness is dimensionless and must not change
+    big = {"exc": ""}
+    try:
+        net.update_resistances(np.array(c["r2"], dtype=float) * 2.0**24)
+        n = net.N
+        big["vcfb"] = [enc.num(net.vertex_current_flow_betweenness(a), 10**4) for a in range(n)]
+        big["ecfb"] = enc.arr(net.edge_current_flow_betweenness(), 10**4)
+    except Exception as ex:
+        big["exc"] = type(ex).__name__
+    rec["big"] = big
+    # complex impedances: every impedance multiplied by z = 1 + 2i (construct from r, update to r2)
+    z = 1 + 2j
+    cobs = []
+    try:
+        cnet = ResNetwork((np.array(c["r"], dtype=float) * z).astype(complex), silence_level=3)
+        cobs.append(_observe_complex(cnet))
+        cnet.update_resistances((np.array(c["r2"], dtype=float) * z).astype(complex))
+        cobs.append(_observe_complex(cnet))
+    except Exception as ex:
+        cobs = [{"exc": "mutator:" + type(ex).__name__}] * 2
+    rec["complex"] = cobs
     rec["events"] = events
     return rec
 
@@ -88,6 +126,6 @@ def main(ctx):
 
 def replay(ctx, rep):
     rec = rep["record"]
-    case = {k: v for k, v in rec.items() if k != "events"}
+    case = {k: v for k, v in rec.items() if k not in ("events", "complex", "big")}
     recs = ctx.run_cases("props.c18.run_case", [case], jobs=1)
     ctx.validate("Val_C18", "Val_C18", recs, nontrivial=_nontrivial)
